@@ -274,6 +274,125 @@ func govcRaceStressRefCount() string {
 	return ""
 }
 
+// govcRefCountModel runs pseudo-random sequences of AddKeyRef / KeyedRef.Release (also repeated, also after the
+// key was removed) / KeyedRefCount.RemoveKey / GetKey against the real KeyedRefCount and against the property's
+// model: a key is present iff a reference taken since its last RemoveKey is still unreleased.
+func govcRefCountModel() string {
+	keys := []string{"a", "b"}
+	for seed := uint64(1); seed <= 600; seed++ {
+		x := seed*0x9E3779B97F4A7C15 + 1
+		next := func(n int) int {
+			x ^= x << 13
+			x ^= x >> 7
+			x ^= x << 17
+			return int(x % uint64(n))
+		}
+		k := NewKeyedRefCount[string, int](func(key string) (Routine, int) {
+			return func(ctx context.Context) error { <-ctx.Done(); return nil }, 1
+		})
+		type held struct {
+			ref  *KeyedRef[string, int]
+			key  string
+			live bool
+		}
+		var refs []*held
+		count := map[string]int{}
+		var trace []string
+		for step := 0; step < 14; step++ {
+			key := keys[next(2)]
+			switch next(4) {
+			case 0:
+				ref, _, existed := k.AddKeyRef(key)
+				trace = append(trace, "AddKeyRef("+key+")")
+				if existed != (count[key] > 0) {
+					return fmt.Sprintf("%v: existed=%v but %d unreleased references", trace, existed, count[key])
+				}
+				refs = append(refs, &held{ref, key, true})
+				count[key]++
+			case 1:
+				if len(refs) == 0 {
+					continue
+				}
+				h := refs[next(len(refs))]
+				h.ref.Release()
+				trace = append(trace, fmt.Sprintf("Release(%s,live=%v)", h.key, h.live))
+				if h.live {
+					h.live = false
+					count[h.key]--
+				}
+			case 2:
+				existed := k.RemoveKey(key)
+				trace = append(trace, "RemoveKey("+key+")")
+				if existed != (count[key] > 0) {
+					return fmt.Sprintf("%v: RemoveKey returned %v but %d unreleased references", trace, existed, count[key])
+				}
+				for _, h := range refs {
+					if h.key == key {
+						h.live = false
+					}
+				}
+				count[key] = 0
+			case 3:
+			}
+			for _, c := range keys {
+				_, present := k.GetKey(c)
+				if present != (count[c] > 0) {
+					return fmt.Sprintf("%v: key %s present=%v with %d unreleased references", trace, c, present, count[c])
+				}
+			}
+			if got := k.GetKeys(); len(got) != func() int { n := 0; for _, c := range keys { if count[c] > 0 { n++ } }; return n }() {
+				return fmt.Sprintf("%v: GetKeys=%v", trace, got)
+			}
+		}
+	}
+	return ""
+}
+
+// a new reference taken while the delayed removal of the key is pending keeps the key for good
+func govcRefCountDelay() string {
+	k := NewKeyedRefCount[string, int](func(key string) (Routine, int) {
+		return func(ctx context.Context) error { <-ctx.Done(); return nil }, 1
+	}, WithReleaseDelay[string, int](4*govcStep))
+	r1, _, _ := k.AddKeyRef("a")
+	r1.Release()
+	if _, ok := k.GetKey("a"); !ok {
+		return "released key vanished before the release delay"
+	}
+	r2, _, existed := k.AddKeyRef("a")
+	if !existed {
+		return "AddKeyRef during the release delay reports existed=false"
+	}
+	time.Sleep(8 * govcStep)
+	if _, ok := k.GetKey("a"); !ok {
+		return "AddKeyRef(a); Release; AddKeyRef(a) within the delay; wait: key a is gone although a reference is unreleased"
+	}
+	r2.Release()
+	time.Sleep(8 * govcStep)
+	if _, ok := k.GetKey("a"); ok {
+		return "key a still present after its last reference was released and the delay expired"
+	}
+	return ""
+}
+
+// RemoveKey concurrent with AddKeyRef: afterwards the key is present iff the reference is still counted
+func govcRefCountRemoveRace() string {
+	for i := 0; i < 3000; i++ {
+		k := NewKeyedRefCount[string, int](func(key string) (Routine, int) {
+			return func(ctx context.Context) error { <-ctx.Done(); return nil }, 1
+		})
+		k.AddKeyRef("a")
+		done := make(chan struct{})
+		go func() { k.RemoveKey("a"); close(done) }()
+		r2, _, _ := k.AddKeyRef("a")
+		<-done
+		r2.Release()
+		if _, ok := k.GetKey("a"); ok {
+			return "RemoveKey(a) || AddKeyRef(a), then Release of the new reference: key a is still present with no reference left"
+		}
+	}
+	return ""
+}
+
 // govcKeySetModel runs pseudo-random sequences of key-set operations (restricted to the given operations)
 // against the real Keyed and against the key set the property describes, with and without a release delay,
 // with and without a context; it returns the first sequence whose return values or key set differ.
@@ -452,6 +571,8 @@ func TestGovcReplay(t *testing.T) {
 	switch {
 	case has("KeyedRef") && has("#own.", "#call.holds", "#lock.", "#block.locked"):
 		scenarios = []func() string{govcRaceStressRefCount}
+	case has("KeyedRef"):
+		scenarios = []func() string{govcRefCountModel, govcRefCountDelay, govcRefCountRemoveRace}
 	case has("#own.", "#call.holds", "#lock.", "#block.locked"):
 		scenarios = []func() string{govcRaceStress}
 	case has("keepretry"):
